@@ -34,6 +34,8 @@ fixed("C07", "C07-null-batch-element", "ba943c5", "body [null]: nil pointer dere
 fixed("C07", "C07-multipart-path-index-only", "36bd45b", "multipart map path \"0\" in batch mode: index out of range at requests/request.go:159")
 fixed("C07", "C07-multipart-batch-index-out-of-range", "36bd45b", "multipart map path 9.variables.f with fewer operations: index out of range at requests/request.go:167")
 fixed("C07", "C07-multipart-negative-list-index", "36bd45b", "multipart map path variables.l.-1: index out of range [-1] at requests/request.go:199")
+fixed("C03", "C03-node-field-lost", "cfb9a93", "a service without node(id:) merged after services with it removed Query.node from the gateway schema (order dependent)")
+fixed("C05", "C05-field-signature-conflicts-accepted", "a4cb434", "shared (input) type fields declared with different type / nullability / list wrapper / argument name, type or default were merged silently, result order dependent")
 fixed("C09", "C09-long-batch-answer-crash", "8266110", "downstream batch answer with one element too many: index out of range at queryer/multiop_queryer.go:159 killed the process")
 fixed("C09", "C09-short-batch-answer-masked", "8266110", "downstream batch answer one element short or empty: nil results returned with nil error, failure masked")
 fixed("C09", "C09-missing-data-masked", "a6df212", "downstream answer {} or {data:null} without errors was merged as an empty result with an empty errors list")
@@ -65,6 +67,12 @@ for a in ["interface-field", "node-interface-field"]:
 known("C01", "C01-node-typed-field", ["node-interface-field"], r"^diff:(MISSING|EXTRA) (id|__typename|<field>)$",
       "a field whose declared type is the Node interface itself is planned like the root node() entry point: plain fields / aliases next to fragments are dropped or leak helpers",
       witness="{ anyNode { ... on N2 { title } id } }")
+known("C01", "C01-shared-enum-extended", ["shared-enum-extended"], r"^errors: (INVALID SUBREQUEST: Value \"<x>\" does not exist in \"<x>\" enum\.|VARIABLE ERROR: input: variable\.\w+ \w+ is not a valid \w+)$",
+      "an enum declared with different value sets by two services is merged into the union of the values; an argument value only one service knows is forwarded to the other service, which rejects it",
+      witness="{ shade1(s: DARK) } with DARK declared only by the other service")
+known("C01", "C01-abstract-fragment-in-interface-field", ["interface-field", "frag-on-abstract"], r"^diff:MISSING (<field>|__typename)$",
+      "inside an interface-typed field a fragment on another interface (interface chain) is not expanded to the implementing types; its fields and the requested __typename are dropped",
+      witness="{ leafs { __typename ... on IMid { b } } }")
 known("C01", "C01-named-fragment-reused", ["frag-named-twice"], r"^diff:EXTRA (id|__typename)$",
       "sanitizeSelectionSet mutates the shared fragment definition on first use; the second spread sees the injected helper as client-selected and does not register it for scrubbing",
       witness="{ n2 { ...F } b: n2 { ...F } } fragment F on N2 { owner { calc } }")
@@ -81,6 +89,8 @@ C02 = [
                 "fields typed as the Node interface are rewritten into per-type fragments that may be empty or name types the receiver lacks"),
  ("memberless-interface", ["memberless-abstract"], [r"^plan-drops-client-field: <field>$", r"^helper-not-registered-for-removal: __typename$"],
                 "the selection on an interface nobody implements is replaced by an unregistered __typename only (observable only at the plan level: the field's value can only be null)"),
+ ("shared-enum-extended", ["shared-enum-extended"], [r"^subrequest-invalid: Value \"<x>\" does not exist in \"<x>\" enum\.$", r"^subrequest-variable-error: "], "enum value known to one service only is forwarded to the other"),
+ ("abstract-fragment-in-interface-field", ["interface-field", "frag-on-abstract"], [r"^plan-drops-client-field: (<field>|__typename)$"], "fragment on another interface inside an interface-typed field is dropped"),
  ("named-fragment-reused", ["frag-named-twice"], [r"^helper-not-registered-for-removal: (id|__typename)$"], "a named fragment spread twice has its injected helper registered only for the first use"),
 ]
 for name, atoms, sigs, what in C02:
